@@ -394,7 +394,7 @@ func c03Gen(rng *rand.Rand, maxOps int) c03Input {
 			ops = append(ops, c03Op{Kind: "restart"})
 		default:
 			// an install is followed by a restart (raft itself learns about the snapshot then)
-			ops = append(ops, c03Op{Kind: "install", Extra: rng.Intn(4)}, c03Op{Kind: "restart"})
+			ops = append(ops, c03Op{Kind: "install", Extra: 1 + rng.Intn(3)}, c03Op{Kind: "restart"}) // raft never installs a snapshot at an index the node already has a snapshot for
 		}
 	}
 	return c03Input{Ops: ops}
